@@ -27,30 +27,12 @@ def calls_in(f):
 
 def check_halfopen(ctx, rule):
     prog = ctx.prog
+    from . import summ
     nd = prog.func("tz._common.tzrangebase._naive_isdst", rule)
-    ncfg = ctx.cfg(nd)
-    nf = ctx.facts(nd)
-    asg = [n for n in ncfg.live_nodes() if n.kind == "stmt" and isinstance(n.ast, ast.Assign) and src(n.ast.targets[0]) == "isdst"]
-    got = {}
-    for n in asg:
-        v = n.ast.value
-        neg = False
-        while isinstance(v, ast.UnaryOp) and isinstance(v.op, ast.Not):
-            neg = not neg
-            v = v.operand
-        key = "north" if ("dston < dstoff", True) in nf.at(n) else ("south" if ("dston < dstoff", False) in nf.at(n) else "?")
-        if isinstance(v, ast.Compare) and len(v.ops) == 2:
-            got[key] = (neg, src(v.left), type(v.ops[0]).__name__, src(v.comparators[0]), type(v.ops[1]).__name__, src(v.comparators[1]))
-        else:
-            got[key] = ("unrecognised", src(v))
-    want = {"north": (False, "dston", "LtE", "dt", "Lt", "dstoff"), "south": (True, "dstoff", "LtE", "dt", "Lt", "dston")}
-    ctx.ob(rule, nd, "daylight time is the half-open interval [start, end) in both hemisphere orders: the start instant is daylight, the end instant standard",
-           got == want, construct="_naive_isdst comparators", detail="" if got == want else str(got), analysis="CMP comparator table from branch facts")
+    summ.check_baseline(ctx, rule, nd, "daylight time is the half-open interval [start, end) in both hemisphere orders: the start instant is daylight, the end instant standard",
+                        construct="_naive_isdst comparators", as_bool=True, analysis="guarded normal form: comparator table over the ordering atoms")
     ia = prog.func("tz._common.tzrangebase.is_ambiguous", rule)
-    rets = [x for x in walk_local(ia.node) if isinstance(x, ast.Return) and isinstance(x.value, ast.Compare)]
-    oka = len(rets) == 1 and [type(o).__name__ for o in rets[0].value.ops] == ["LtE", "Lt"] and src(rets[0].value.left) == "end" and \
-        poly(rets[0].value.comparators[1]) == {("end",): 1, ("self._dst_base_offset",): 1} and src(rets[0].value.comparators[0]) == "dt"
-    ctx.ob(rule, ia, "the repeated wall times of a range zone are [end, end + saving)", oka, construct="tzrangebase.is_ambiguous window", analysis="CMP + polynomial normal form")
+    summ.check_baseline(ctx, rule, ia, "the repeated wall times of a range zone are [end, end + saving)", construct="tzrangebase.is_ambiguous window", as_bool=True)
 
 
 def check_iface(ctx, rule):
@@ -114,29 +96,16 @@ def check_fold_on_return(ctx, rule):
                    construct="%s: %s" % (f.qualname.split("dateutil.")[-1], stmt_text(r)), detail="" if (is_enfold or fixed) else "fold is not set on this return",
                    analysis="CFG return coverage")
         ctx.floor(rule, len(rets), 1, "returns of %s" % q)
-    # the fold value itself
-    g = prog.func("tz._common._tzinfo.fromutc", rule)
-    txt = norm(src(g.node))
-    ctx.ob(rule, g, "generic zones: fold is decided by _fold_status(utc, wall) after _fromutc", "dt_wall=self._fromutcdt" in txt and "_fold=self._fold_statusdt,dt_wall" in txt and "returnenfolddt_wall,fold=_fold" in txt,
-           construct="_tzinfo.fromutc body")
-    fsf = prog.func("tz._common._tzinfo._fold_status", rule)
-    ctx.ob(rule, fsf, "generic zones: the later occurrence is the one whose wall-minus-UTC equals the standard offset (utcoffset - dst)",
-           "int(delta_wall == dt_utc.utcoffset() - dt_utc.dst())" in src(fsf.node) and "self.is_ambiguous(dt_wall)" in src(fsf.node) and "delta_wall = dt_wall - dt_utc" in src(fsf.node),
-           construct="_fold_status body")
-    rb = prog.func("tz._common.tzrangebase.fromutc", rule)
-    t = norm(src(rb.node))
-    ctx.ob(rule, rb, "range zones: wall = utc + dst offset inside the UTC daylight interval, else utc + std offset; fold = standard time inside the repeated hour",
-           "dt_wall=dt+self._dst_offset" in t and "dt_wall=dt+self._std_offset" in t and "_fold=intnotisdstandself.is_ambiguousdt_wall" in t and "isdst=self._naive_isdstdt_utc,utc_transitions" in t,
-           construct="tzrangebase.fromutc body")
-    tf = prog.func("tz.tz.tzfile.fromutc", rule)
-    t = norm(src(tf.node))
-    ctx.ob(rule, tf, "zone files: the period is looked up in the UTC transition table, wall = utc + that period's offset, fold = ambiguity of the wall time in that period",
-           "idx=self._find_last_transitiondt,in_utc=True" in t and "tti=self._get_ttinfoidx" in t and "dt_out=dt+datetime.timedeltaseconds=tti.offset" in t and
-           "fold=self.is_ambiguousdt_out,idx=idx" in t and "returnenfolddt_out,fold=intfold" in t, construct="tzfile.fromutc body")
-    fu = prog.func("tz._common._tzinfo._fromutc", rule)
-    t = norm(src(fu.node))
-    ctx.ob(rule, fu, "generic zones: wall = utc + (utcoffset - dst) + dst-at-the-result (evaluated with fold=1)",
-           "delta=dtoff-dtdst" in t and "dt+=delta" in t and "dtdst=enfolddt,fold=1.dst" in t and "returndt+dtdst" in t, construct="_tzinfo._fromutc body")
+    # the fold value itself: each function's guarded table against the confirmed one
+    from . import summ
+    for q, what in (
+            ("tz._common._tzinfo.fromutc", "generic zones: fold is decided by _fold_status(utc, wall) after _fromutc"),
+            ("tz._common._tzinfo._fold_status", "generic zones: the later occurrence is the one whose wall-minus-UTC equals the standard offset (utcoffset - dst), only for ambiguous wall times"),
+            ("tz._common.tzrangebase.fromutc", "range zones: wall = utc + dst offset inside the UTC daylight interval (transitions shifted by the STANDARD offset), else utc + std offset; fold = standard time inside the repeated hour"),
+            ("tz.tz.tzfile.fromutc", "zone files: the period is looked up in the UTC transition table, wall = utc + that period's offset, fold = ambiguity of the wall time in that period"),
+            ("tz._common._tzinfo._fromutc", "generic zones: wall = utc + (utcoffset - dst) + dst-at-the-result (evaluated with fold=1); a None offset or saving is a ValueError")):
+        f = prog.func(q, rule)
+        summ.check_baseline(ctx, rule, f, what, bool_calls={"is_ambiguous", "_naive_isdst"})
 
 
 def check_resolver(ctx, rule):
@@ -150,35 +119,21 @@ def check_resolver(ctx, rule):
             others = [x for x in calls_in(f) if x.startswith("self._") and x != res and x not in ("self._fold",)]
             ctx.ob(rule, f, "%s.%s obtains the period through %s, the same resolver as its siblings (offset, saving and abbreviation are those of one period)" % (c.name, m, res),
                    bool(used) and not others, construct="%s.%s -> %s" % (c.name, m, res), detail="" if (used and not others) else "calls %s" % calls_in(f), analysis="call-graph sibling agreement")
+    from . import summ
     tzf = prog.cls("tz.tz.tzfile", rule)
-    ft = prog.method(tzf.qualname, "_find_ttinfo", rule)
-    ctx.ob(rule, ft, "tzfile: the wall-time resolver applies the fold-directed index shift and then the common index->period mapping",
-           norm(src(ft.node)).endswith("idx=self._resolve_ambiguous_timedtreturnself._get_ttinfoidx"), construct="_find_ttinfo body")
-    # the fields read from the period
-    uo = prog.method(tzf.qualname, "utcoffset", rule)
-    ctx.ob(rule, uo, "tzfile.utcoffset is the period's delta", "return self._find_ttinfo(dt).delta" in src(uo.node), construct="tzfile.utcoffset -> .delta")
-    tn = prog.method(tzf.qualname, "tzname", rule)
-    ctx.ob(rule, tn, "tzfile.tzname is the period's abbreviation", "return self._find_ttinfo(dt).abbr" in src(tn.node), construct="tzfile.tzname -> .abbr")
+    for m, what in (("_find_ttinfo", "tzfile: the wall-time resolver applies the fold-directed index shift and then the common index->period mapping"),
+                    ("utcoffset", "tzfile.utcoffset is the period's delta (None without a datetime, zero without data)"),
+                    ("tzname", "tzfile.tzname is the period's abbreviation")):
+        summ.check_baseline(ctx, rule, prog.method(tzf.qualname, m, rule), what)
     rt = prog.method(tzf.qualname, "_read_tzfile", rule)
     a = {src(n.targets[0]): src(n.value) for n in walk_local(rt.node) if isinstance(n, ast.Assign) and src(n.targets[0]) in ("tti.offset", "tti.delta")}
     ctx.ob(rule, rt, "a period's integer offset and its timedelta are built from the same gmtoff (seconds)", a == {"tti.offset": "gmtoff", "tti.delta": "datetime.timedelta(seconds=gmtoff)"},
            construct="tti.offset / tti.delta", detail=str(a), analysis="FIELD same-field + UNIT")
     rb = prog.cls("tz._common.tzrangebase", rule)
-    uo = prog.method(rb.qualname, "utcoffset", rule)
-    cfg = ctx.cfg(uo)
-    f_ = ctx.facts(uo)
-    r = {src(n.ast.value): [tv for t, tv in f_.at(n) if t == "isdst"] for n in cfg.live_nodes() if n.kind == "stmt" and isinstance(n.ast, ast.Return) and src(n.ast.value) != "None"}
-    ctx.ob(rule, uo, "range zones report the daylight offset in daylight time and the standard offset otherwise", r == {"self._dst_offset": [True], "self._std_offset": [False]}, construct="tzrangebase.utcoffset", detail=str(r))
-    d = prog.method(rb.qualname, "dst", rule)
-    cfg = ctx.cfg(d)
-    f_ = ctx.facts(d)
-    r = {src(n.ast.value): [tv for t, tv in f_.at(n) if t == "isdst"] for n in cfg.live_nodes() if n.kind == "stmt" and isinstance(n.ast, ast.Return) and src(n.ast.value) != "None"}
-    ctx.ob(rule, d, "range zones report the saving in daylight time and zero otherwise", r == {"self._dst_base_offset": [True], "ZERO": [False]}, construct="tzrangebase.dst", detail=str(r))
-    tn = prog.method(rb.qualname, "tzname", rule)
-    cfg = ctx.cfg(tn)
-    f_ = ctx.facts(tn)
-    r = {src(n.ast.value): [tv for t, tv in f_.at(n) if t == "self._isdst(dt)"] for n in cfg.live_nodes() if n.kind == "stmt" and isinstance(n.ast, ast.Return)}
-    ctx.ob(rule, tn, "range zones report the daylight abbreviation in daylight time and the standard one otherwise", r == {"self._dst_abbr": [True], "self._std_abbr": [False]}, construct="tzrangebase.tzname", detail=str(r))
+    for m, what in (("utcoffset", "range zones report the daylight offset in daylight time and the standard offset otherwise (None when the daylight state is unknown)"),
+                    ("dst", "range zones report the saving in daylight time and zero otherwise"),
+                    ("tzname", "range zones report the daylight abbreviation in daylight time and the standard one otherwise")):
+        summ.check_baseline(ctx, rule, prog.method(rb.qualname, m, rule), what)
 
 
 def check_fixed(ctx, rule):
@@ -220,22 +175,13 @@ def check_parallel_eviction(ctx, rule):
 # ---------------------------------------------------------------------------------- C05
 def check_foldread(ctx, rule):
     prog = ctx.prog
-    sites = {
-        "tz._common.tzrangebase._isdst": ("notisdstandself.is_ambiguousdt", "returnnotself._folddt"),
-        "tz.tz.tzfile._resolve_ambiguous_time": ("_fold=self._folddt", "idx_offset=intnot_foldandself.is_ambiguousdt,idx"),
-        "tz.tz.tzlocal._isdst": ("ifself.is_ambiguousdt:", "returnnotself._folddt"),
-    }
-    for q, (a, b) in sites.items():
-        f = prog.func(q, rule)
-        t = norm(src(f.node))
-        ctx.ob(rule, f, "in the ambiguous branch the result depends on the datetime's fold (fold=0 earlier/daylight, fold=1 later/standard)", a in t and b in t,
-               construct="%s: fold read" % q.split(".")[-2] + "." + q.split(".")[-1], analysis="FIELD dependence")
-    fd = prog.func("tz._common._tzinfo._fold", rule)
-    ctx.ob(rule, fd, "fold is read from the datetime with default 0", "return getattr(dt, 'fold', 0)" in src(fd.node), construct="_tzinfo._fold")
-    rt = prog.func("tz.tz.tzfile._resolve_ambiguous_time", rule)
-    t = norm(src(rt.node))
-    ctx.ob(rule, rt, "zone files: fold=0 in the repeated interval selects the period BEFORE the transition (index - 1), fold=1 the one after",
-           "returnidx-idx_offset" in t and "ifidxisNoneoridx==0:returnidx" in t, construct="tzfile index shift")
+    from . import summ
+    for q, what in (
+            ("tz._common.tzrangebase._isdst", "range zones: in the repeated hour the answer is the datetime's fold (fold=0 daylight, fold=1 standard); otherwise the half-open interval test"),
+            ("tz.tz.tzfile._resolve_ambiguous_time", "zone files: fold=0 in the repeated interval selects the period BEFORE the transition (index - 1), fold=1 the one after; no shift without an earlier period"),
+            ("tz.tz.tzlocal._isdst", "tzlocal: in the repeated hour the answer is the datetime's fold when it has one (daylight for fold=0)"),
+            ("tz._common._tzinfo._fold", "fold is read from the datetime with default 0")):
+        summ.check_baseline(ctx, rule, prog.func(q, rule), what, bool_calls={"is_ambiguous"})
     # call graph: utcoffset of each variable class reaches a fold read
     for q in VARIABLE:
         c = prog.cls(q, rule)
@@ -263,27 +209,14 @@ def check_ambig(ctx, rule):
         r = prog.class_lookup(c, "is_ambiguous")
         ok = bool(r and isinstance(r[0], FuncInfo))
         ctx.ob(rule, c, "%s answers is_ambiguous" % c.name, ok, construct="%s.is_ambiguous" % c.name)
-    tf = prog.func("tz.tz.tzfile.is_ambiguous", rule)
-    cfg = ctx.cfg(tf)
-    facts = ctx.facts(tf)
-    rets = [n for n in cfg.live_nodes() if n.kind == "stmt" and isinstance(n.ast, ast.Return)]
-    falses = [n for n in rets if src(n.ast.value) == "False"]
-    okf = len(falses) == 1 and any(tv and norm(t) == "idxisNoneoridx<=0" for t, tv in facts.at(falses[0]))
-    ctx.ob(rule, tf, "zone files: a wall time is declared unambiguous outright only when there is no earlier period (idx is None or idx <= 0); "
-           "every other case is decided by the overlap window", okf and len(rets) == 2, construct="tzfile.is_ambiguous early returns",
-           detail="" if (okf and len(rets) == 2) else "returns: %s" % [(stmt_text(n), sorted(t for t, tv in facts.at(n) if tv)[:3]) for n in rets], analysis="CFG return coverage + facts")
-    win = [n for n in rets if n not in falses]
-    okw = len(win) == 1 and isinstance(win[0].ast.value, ast.Compare) and norm(src(win[0].ast.value)) == "timestamp<tt+od"
-    ctx.ob(rule, tf, "the overlap window is [transition, transition + (previous offset - new offset))", okw and
-           "od = self._get_ttinfo(idx - 1).offset - tti.offset" in src(tf.node) and "tt = self._trans_list[idx]" in src(tf.node), construct="tzfile.is_ambiguous window", analysis="polynomial normal form")
-    g = prog.func("tz._common._tzinfo.is_ambiguous", rule)
-    t = norm(src(g.node))
-    ctx.ob(rule, g, "generic zones: ambiguous iff fold=0 and fold=1 give the same wall time but different offsets",
-           "same_offset=wall_0.utcoffset==wall_1.utcoffset" in t and "returnsame_dtandnotsame_offset" in t and "wall_0=enfolddt,fold=0" in t and "wall_1=enfolddt,fold=1" in t, construct="_tzinfo.is_ambiguous body")
-    tl = prog.func("tz.tz.tzlocal.is_ambiguous", rule)
-    t = norm(src(tl.node))
-    ctx.ob(rule, tl, "tzlocal: ambiguous iff standard now but daylight one saving earlier", "naive_dst=self._naive_is_dstdt" in t and
-           "returnnotnaive_dstandnaive_dst!=self._naive_is_dstdt-self._dst_saved" in t, construct="tzlocal.is_ambiguous body")
+    from . import summ
+    for q, what in (
+            ("tz.tz.tzfile.is_ambiguous", "zone files: a wall time is unambiguous outright only when there is no earlier period (idx is None or idx <= 0); otherwise it is "
+                                         "ambiguous iff it lies in [transition, transition + (previous offset - new offset))"),
+            ("tz._common._tzinfo.is_ambiguous", "generic zones: ambiguous iff fold=0 and fold=1 give the same wall time but different offsets"),
+            ("tz.tz.tzlocal.is_ambiguous", "tzlocal: ambiguous iff standard now but daylight one saving earlier"),
+            ("tz._common.tzrangebase.is_ambiguous", "range zones: the repeated wall times are [end, end + saving); never without daylight time")):
+        summ.check_baseline(ctx, rule, prog.func(q, rule), what, as_bool=True)
 
 
 def check_api(ctx, rule):
